@@ -23,17 +23,17 @@ class FqVar:
     def __deepcopy__(s, memo): return s
     def __repr__(s): return f'FqVar({s.fe})'
 class BoolVar:
-    __slots__ = ('b',)
-    def __init__(s, b): s.b = bool(b)
+    __slots__ = ('b', 'const')
+    def __init__(s, b, const=False): s.b = bool(b); s.const = const
     def __deepcopy__(s, memo): return s
-    def __repr__(s): return f'BoolVar({s.b})'
-    def mir_not(s): return BoolVar(not s.b)
+    def __repr__(s): return f'BoolVar({s.b}{", const" if s.const else ""})'
+    def mir_not(s): return BoolVar(not s.b, s.const)
 class CSRef:
     def __deepcopy__(s, memo): return s
 
 class Store:
     """constraint store + witness log of one run"""
-    def __init__(s, mode): s.mode = mode; s.facts = []; s.nw = 0; s.log = []
+    def __init__(s, mode): s.mode = mode; s.facts = []; s.nw = 0; s.log = []; s.trace = []
     def eq(s, a, b, why): s.facts.append(('eq', a, b, why))
     def false(s, why): s.facts.append(('false', None, None, why))
 
@@ -47,7 +47,7 @@ def BVv(I, x):
     x = D(I, x)
     if isinstance(x, (Ref, SliceRef)): x = I.deref(x)
     if isinstance(x, BoolVar): return x
-    if isinstance(x, bool): return BoolVar(x)
+    if isinstance(x, bool): return BoolVar(x, True)
     raise Unsupported(f'expected Boolean, got {x!r}')
 
 def _tmpref(v):
@@ -55,85 +55,134 @@ def _tmpref(v):
 
 def r1cs_models(store):
     def st(I): return store
+    def shp(I): return store.mode in ('shape', 'setup')       # C15 runs: values are opaque, only kinds and call order matter
+    def fresh(I, tag='v'):
+        store.nw += 1; return FE.sym('Fq', f'{tag}{store.nw}')
     F = FQV
     def arith(op):
         def f(I, fr, fn, a):
             x, y = FV(I, a[0]), FV(I, a[1])
-            r = FqVar(getattr(x.fe, op)(y.fe), x.const and y.const)
+            if shp(I) and not (x.const and y.const): r = FqVar(fresh(I), False)
+            else: r = FqVar(getattr(x.fe, op)(y.fe), x.const and y.const)
             if fn.endswith('_assign'): I.store(a[0], r); return UNIT
             return r
         return f
-    def m_square(I, fr, fn, a): x = FV(I, a[0]); return ok(FqVar(x.fe.square(), x.const))
-    def m_negate(I, fr, fn, a): x = FV(I, a[0]); return ok(FqVar(x.fe.neg(), x.const))
-    def m_double(I, fr, fn, a): x = FV(I, a[0]); return ok(FqVar(x.fe.add(x.fe), x.const))
+    def m_square(I, fr, fn, a): x = FV(I, a[0]); return ok(FqVar(fresh(I), False) if shp(I) and not x.const else FqVar(x.fe.square(), x.const))
+    def m_negate(I, fr, fn, a): x = FV(I, a[0]); return ok(FqVar(fresh(I), False) if shp(I) and not x.const else FqVar(x.fe.neg(), x.const))
+    def m_double(I, fr, fn, a): x = FV(I, a[0]); return ok(FqVar(fresh(I), False) if shp(I) and not x.const else FqVar(x.fe.add(x.fe), x.const))
     def m_const(I, fr, fn, a):
         v = a[-1]
         return ok(FqVar(v, True)) if 'new_constant' in fn else FqVar(v, True)
     def m_zero(I, fr, fn, a): return FqVar(FE.const('Fq', 0), True)
     def m_one(I, fr, fn, a): return FqVar(FE.const('Fq', 1), True)
     def closure_value(I, fr, f):
-        r = I.call_closure(fr, f, [])
+        f0 = I.deref(f) if isinstance(f, Ref) else f
+        if isinstance(f0, Agg) and f0.name == '{closure@harness}': r = I.call(fr, '<impl FnOnce() -> R as core::ops::FnOnce<()>>::call_once', [f0, Agg('tuple', [])])
+        else: r = I.call_closure(fr, f, [])
         if isinstance(r, Enum) and r.variant == 'Ok': r = r.fields[0]
         elif isinstance(r, Enum) and r.variant == 'Err': raise PathEnd('witness closure failed: ' + repr(r))
         if isinstance(r, Ref): r = I.deref(r)
         return r
     def m_new_witness_fq(I, fr, fn, a):
-        s = st(I); v = closure_value(I, fr, a[-1]) if 'new_witness' in fn or 'new_variable' in fn or 'new_input' in fn else a[-1]
+        s = st(I)
+        if s.mode == 'setup' and not ('::new_variable::' in fn and isinstance(a[-1], Enum) and a[-1].variant.endswith('Constant')):
+            # Setup synthesis: arkworks does not evaluate the value closure; the variable exists, its value does not
+            s.nw += 1; return ok(FqVar(FE.sym('Fq', f'su{s.nw}')))
+        is_nv = '::new_variable::' in fn
+        clo = a[-2] if is_nv else a[-1]
+        if is_nv and isinstance(a[-1], Enum) and a[-1].variant.endswith('Constant'):
+            return ok(FqVar(closure_value(I, fr, clo), True))
+        v = closure_value(I, fr, clo) if 'new_witness' in fn or 'new_variable' in fn or 'new_input' in fn else a[-1]
         s.nw += 1
+        if s.mode == 'shape':
+            s.log.append(('fq', None, v)); return ok(FqVar(fresh(I, 'w'), False))
         if s.mode == 'adversarial' and 'new_input' not in fn:
             w = FqVar(FE.sym('Fq', f'w{s.nw}')); s.log.append(('fq', w, v)); return ok(w)
         s.log.append(('fq', None, v))
         return ok(FqVar(v))
     def m_new_witness_bool(I, fr, fn, a):
-        s = st(I); v = closure_value(I, fr, a[-1])
+        s = st(I)
+        if s.mode == 'setup': s.nw += 1; return ok(BoolVar(False))
+        v = closure_value(I, fr, a[-1])
         s.nw += 1
+        if s.mode == 'shape': return ok(BoolVar(False))
         if s.mode == 'adversarial':
             b = I.ctx.decide(z3.Bool(f'wb{s.nw}'), key=f'wb{s.nw}')
             s.log.append(('bool', b, v)); return ok(BoolVar(b))
         return ok(BoolVar(v))
     def m_inverse(I, fr, fn, a):
         x = FV(I, a[0])
+        if shp(I) and not x.const: return ok(FqVar(fresh(I), False))
         if fe_is_zero(I, x.fe):
             st(I).false('inverse of zero: x * inv = 1 is unsatisfiable'); return ok(FqVar(FE.const('Fq', 0)))
         r = models.m_fe_inverse(I, fr, fn, [x.fe])
         return ok(FqVar(r.fields[0], x.const))
     def m_is_eq(I, fr, fn, a):
-        x, y = FV(I, a[0]), FV(I, a[1]); return ok(BoolVar(fe_eq(I, x.fe, y.fe)))
-    def m_bool_is_eq(I, fr, fn, a): return ok(BoolVar(BVv(I, a[0]).b == BVv(I, a[1]).b))
+        x, y = FV(I, a[0]), FV(I, a[1])
+        if shp(I) and not (x.const and y.const): return ok(BoolVar(False))
+        return ok(BoolVar(fe_eq(I, x.fe, y.fe), x.const and y.const))
+    def m_bool_is_eq(I, fr, fn, a):
+        x, y = BVv(I, a[0]), BVv(I, a[1]); return ok(BoolVar(x.b == y.b, x.const and y.const))
+    def unconst(v):
+        # the result of a selection on a variable condition is a variable, whatever the branches are
+        if isinstance(v, FqVar): return FqVar(v.fe, False)
+        if isinstance(v, BoolVar): return BoolVar(v.b, False)
+        if isinstance(v, Agg): return Agg(v.name, [unconst(f) for f in v.fields])
+        return v
     def m_cond_select(I, fr, fn, a):
-        c = BVv(I, a[0]); return ok(D(I, a[1]) if c.b else D(I, a[2]))
+        c = BVv(I, a[0]); r = D(I, a[1]) if c.b else D(I, a[2])
+        if isinstance(r, (Ref, SliceRef)): r = I.deref(r)
+        return ok(r if c.const else unconst(r))
     def m_enforce_eq_fq(I, fr, fn, a):
         x, y = FV(I, a[0]), FV(I, a[1]); c = BVv(I, a[2]) if len(a) > 2 else BoolVar(True)
+        if shp(I): return ok(UNIT)
         if c.b: st(I).eq(x.fe, y.fe, fn.split('::')[-1] + ' in ' + fr.item.name.split('::')[-1])
         return ok(UNIT)
     def m_enforce_eq_bool(I, fr, fn, a):
         x, y = BVv(I, a[0]), BVv(I, a[1]); c = BVv(I, a[2]) if len(a) > 2 else BoolVar(True)
         if c.b and x.b != y.b: st(I).false('Boolean enforce_equal(' + str(x.b) + ', ' + str(y.b) + ') in ' + fr.item.name.split('::')[-1])
         return ok(UNIT)
-    def m_bool_not(I, fr, fn, a): return BoolVar(not BVv(I, a[0]).b)
-    def m_bool_and(I, fr, fn, a): return ok(BoolVar(BVv(I, a[0]).b and BVv(I, a[1]).b))
-    def m_bool_or(I, fr, fn, a): return ok(BoolVar(BVv(I, a[0]).b or BVv(I, a[1]).b))
-    def m_bool_const(I, fr, fn, a): return BoolVar(a[0])
+    def m_bool_not(I, fr, fn, a): x = BVv(I, a[0]); return BoolVar(not x.b, x.const)
+    def m_bool_and(I, fr, fn, a):
+        x, y = BVv(I, a[0]), BVv(I, a[1])
+        # arkworks: a constant operand is absorbed (false) or dropped (true) without a constraint
+        const = (x.const and y.const) or (x.const and not x.b) or (y.const and not y.b)
+        return ok(BoolVar(x.b and y.b, const))
+    def m_bool_or(I, fr, fn, a):
+        x, y = BVv(I, a[0]), BVv(I, a[1])
+        const = (x.const and y.const) or (x.const and x.b) or (y.const and y.b)
+        return ok(BoolVar(x.b or y.b, const))
+    def m_bool_const(I, fr, fn, a): return BoolVar(a[0], True)
     def m_to_bits(I, fr, fn, a):
         x = FV(I, a[0])
+        if shp(I) and not x.const: return ok(Agg('alloc::vec::Vec', [[BoolVar(False)] + [models.Opaque('bit')] * 252]))
         unique = 'non_unique' not in fn
         if not unique and st(I).mode == 'adversarial':
             # only  sum bits * 2^i = value (mod p)  is enforced: the parity bit is the prover's choice whenever value + p < 2^253
             b0 = I.ctx.decide(z3.Bool(f'bit0_{len(st(I).log)}')); st(I).log.append(('nonunique-bits', x, b0))
         else: b0 = fe_is_negative(I, x.fe)
-        return ok(Agg('alloc::vec::Vec', [[BoolVar(b0)] + [models.Opaque('bit')] * 252]))
+        return ok(Agg('alloc::vec::Vec', [[BoolVar(b0, x.const)] + [models.Opaque('bit')] * 252]))
     def m_value_fq(I, fr, fn, a):
-        x = FV(I, a[0]); return ok(x.fe)
+        x = FV(I, a[0])
+        if st(I).mode == 'setup' and not x.const: return err(Enum('ark_relations::r1cs::SynthesisError', 'AssignmentMissing', []))
+        return ok(x.fe)
     def m_cs(I, fr, fn, a): return CSRef()
     def m_affine_new(I, fr, fn, a): return Agg('AffineVar', [FV(I, a[0]), FV(I, a[1]), Agg('PhantomData', [])])
     def m_affine_alloc(I, fr, fn, a):
         """AffineVar::new_variable_omit_prime_order_check(cs, f, mode): coordinates as witnesses (constants in Constant mode) and,
         for non-constants, the on-curve constraint  a x^2 + y^2 = 1 + d x^2 y^2"""
-        s = st(I); mode = a[-1]; v = closure_value(I, fr, a[-2])
+        s = st(I); mode = a[-1]
+        const = isinstance(mode, Enum) and mode.variant.endswith('Constant')
         from . import curve
+        if s.mode == 'setup' and not const:
+            s.nw += 1
+            return ok(Agg('AffineVar', [FqVar(FE.sym('Fq', f'sx{s.nw}')), FqVar(FE.sym('Fq', f'sy{s.nw}')), Agg('PhantomData', [])]))
+        v = closure_value(I, fr, a[-2])
+        if s.mode == 'shape' and not const:
+            s.nw += 1
+            return ok(Agg('AffineVar', [FqVar(FE.sym('Fq', f'sx{s.nw}')), FqVar(FE.sym('Fq', f'sy{s.nw}')), Agg('PhantomData', [])]))
         if isinstance(v, Agg) and v.name == 'Projective': v = curve.m_te_projective_to_affine(I, fr, fn, [v])
         x, y = v.fields[0], v.fields[1]
-        const = isinstance(mode, Enum) and mode.variant.endswith('Constant')
         if s.mode == 'adversarial' and not const:
             s.nw += 1; xs, ys = FE.sym('Fq', f'px{s.nw}'), FE.sym('Fq', f'py{s.nw}'); s.log.append(('point', (xs, ys), (x, y))); x, y = xs, ys
         if not const and 'omit_on_curve_check' not in fn:
@@ -145,6 +194,14 @@ def r1cs_models(store):
             p, q = D(I, a[0]), D(I, a[1])
             if isinstance(p, Ref): p = I.deref(p)
             if isinstance(q, Ref): q = I.deref(q)
+            if isinstance(q, Agg) and q.name in ('Projective', 'Affine'):       # a native (constant) operand
+                from . import curve
+                if q.name == 'Projective': q = curve.m_te_projective_to_affine(I, fr, fn, [q])
+                q = Agg('AffineVar', [FqVar(q.fields[0], True), FqVar(q.fields[1], True), Agg('PhantomData', [])])
+            if shp(I):
+                r = Agg('AffineVar', [FqVar(fresh(I), False), FqVar(fresh(I), False), Agg('PhantomData', [])])
+                if fn.endswith('_assign'): I.store(a[0], r); return UNIT
+                return r
             x1, y1, x2, y2 = p.fields[0].fe, p.fields[1].fe, q.fields[0].fe, q.fields[1].fe
             if op == 'sub': x2 = x2.neg()
             d = FE.const('Fq', spec.Dd); one = FE.const('Fq', 1)
@@ -158,6 +215,26 @@ def r1cs_models(store):
             if fn.endswith('_assign'): I.store(a[0], r); return UNIT
             return r
         return f
+    def m_aff_double(I, fr, fn, a):
+        p = I.deref(a[0]); x, y = p.fields[0].fe, p.fields[1].fe
+        c = p.fields[0].const and p.fields[1].const
+        if shp(I) and not c:
+            I.store(a[0], Agg('AffineVar', [FqVar(fresh(I), False), FqVar(fresh(I), False), Agg('PhantomData', [])])); return ok(UNIT)
+        d = FE.const('Fq', spec.Dd); one = FE.const('Fq', 1); dd = d.mul(x).mul(x).mul(y).mul(y)
+        i1 = models.m_fe_inverse(I, fr, fn, [one.add(dd)]); i2 = models.m_fe_inverse(I, fr, fn, [one.sub(dd)])
+        if i1.variant == 'None' or i2.variant == 'None': st(I).false('degenerate doubling'); return ok(UNIT)
+        I.store(a[0], Agg('AffineVar', [FqVar(x.mul(y).add(y.mul(x)).mul(i1.fields[0]), c), FqVar(y.mul(y).add(x.mul(x)).mul(i2.fields[0]), c), Agg('PhantomData', [])])); return ok(UNIT)
+    def m_aff_negate(I, fr, fn, a):
+        p = I.deref(a[0]); return ok(Agg('AffineVar', [FqVar(p.fields[0].fe.neg(), p.fields[0].const), p.fields[1], Agg('PhantomData', [])]))
+    def m_aff_constant(I, fr, fn, a):
+        from . import curve
+        q = D(I, a[0])
+        if isinstance(q, Agg) and q.name == 'Projective': q = curve.m_te_projective_to_affine(I, fr, fn, [q])
+        return Agg('AffineVar', [FqVar(q.fields[0], True), FqVar(q.fields[1], True), Agg('PhantomData', [])])
+    def m_aff_to_bits(I, fr, fn, a):
+        p = I.deref(a[0]); c = p.fields[0].const and p.fields[1].const
+        n = 506 if 'to_bits' in fn else 64
+        return ok(Agg('alloc::vec::Vec', [[BoolVar(False, c) if c else models.Opaque('bit')] * n]))
     def m_noop_ok(I, fr, fn, a): return ok(UNIT)
     def m_refcell_new(I, fr, fn, a): return Agg('RefCell', [a[0]])
     def m_refcell_borrow(I, fr, fn, a):
@@ -199,8 +276,14 @@ def r1cs_models(store):
         (r'^<ark_r1cs_std::groups::curves::twisted_edwards::AffineVar<.*> as core::ops::(Add|AddAssign)(<.*>)?>::add(_assign)?$', m_affine_binop('add')),
         (r'^<ark_r1cs_std::groups::curves::twisted_edwards::AffineVar<.*> as core::ops::(Sub|SubAssign)(<.*>)?>::sub(_assign)?$', m_affine_binop('sub')),
         (r'^<ark_r1cs_std::groups::curves::twisted_edwards::AffineVar<.*> as ark_r1cs_std::groups::CurveVar<.*>>::zero$', lambda I, fr, fn, a: Agg('AffineVar', [FqVar(FE.const('Fq', 0), True), FqVar(FE.const('Fq', 1), True), Agg('PhantomData', [])])),
-        (r'^<ark_r1cs_std::groups::curves::twisted_edwards::AffineVar<.*> as ark_r1cs_std::groups::CurveVar<.*>>::is_zero$', lambda I, fr, fn, a: (lambda p: ok(BoolVar(fe_is_zero(I, p.fields[0].fe) and fe_eq(I, p.fields[1].fe, FE.const('Fq', 1)))))(I.deref(a[0]))),
-        (r'^<ark_r1cs_std::groups::curves::twisted_edwards::AffineVar<.*> as ark_r1cs_std::eq::EqGadget<.*>>::is_eq$', lambda I, fr, fn, a: (lambda p, q: ok(BoolVar(fe_eq(I, p.fields[0].fe, q.fields[0].fe) and fe_eq(I, p.fields[1].fe, q.fields[1].fe))))(I.deref(a[0]), I.deref(a[1]))),
+        (r'^<ark_r1cs_std::groups::curves::twisted_edwards::AffineVar<.*> as ark_r1cs_std::groups::CurveVar<.*>>::is_zero$', lambda I, fr, fn, a: ok(BoolVar(False)) if shp(I) else (lambda p: ok(BoolVar(fe_is_zero(I, p.fields[0].fe) and fe_eq(I, p.fields[1].fe, FE.const('Fq', 1)))))(I.deref(a[0]))),
+        (r'^<ark_r1cs_std::groups::curves::twisted_edwards::AffineVar<.*> as ark_r1cs_std::eq::EqGadget<.*>>::is_eq$', lambda I, fr, fn, a: ok(BoolVar(False)) if shp(I) else (lambda p, q: ok(BoolVar(fe_eq(I, p.fields[0].fe, q.fields[0].fe) and fe_eq(I, p.fields[1].fe, q.fields[1].fe))))(I.deref(a[0]), I.deref(a[1]))),
+        (r'^<ark_r1cs_std::groups::curves::twisted_edwards::AffineVar<.*> as ark_r1cs_std::groups::CurveVar<.*>>::double_in_place$', m_aff_double),
+        (r'^<ark_r1cs_std::groups::curves::twisted_edwards::AffineVar<.*> as ark_r1cs_std::groups::CurveVar<.*>>::negate$', m_aff_negate),
+        (r'^<ark_r1cs_std::groups::curves::twisted_edwards::AffineVar<.*> as ark_r1cs_std::groups::CurveVar<.*>>::constant$', m_aff_constant),
+        (r'^<ark_r1cs_std::groups::curves::twisted_edwards::AffineVar<.*> as ark_r1cs_std::(ToBitsGadget|ToBytesGadget)<.*>>::(to_bits_le|to_bytes)$', m_aff_to_bits),
+        # trait-default allocation entry points of the crate's own variable types: new_input / new_witness / new_constant call new_variable
+        (r'^<ark_curve::r1cs::\w+::ElementVar as ark_r1cs_std::alloc::AllocVar<.*>>::(new_input|new_witness)::<', lambda I, fr, fn, a: I.call(fr, re.sub(r'>::(new_input|new_witness)::<', '>::new_variable::<', fn), [a[0], a[1], Enum('ark_r1cs_std::alloc::AllocationMode', 'Input' if '>::new_input::<' in fn else 'Witness', [])])),
         (r'^core::cell::RefCell::<.*>::new$', m_refcell_new), (r'^core::cell::RefCell::<.*>::(borrow|borrow_mut|get_mut|as_ptr)$', m_refcell_borrow),
         (r'^core::cell::RefCell::<.*>::into_inner$', lambda I, fr, fn, a: a[0].fields[0]),
         (r'^core::cell::RefCell::<.*>::replace$', lambda I, fr, fn, a: (lambda old: (I.store(Ref(a[0].frame, a[0].local, list(a[0].path) + [0]), a[1]), old)[1])(mirsym.cp(I.deref(Ref(a[0].frame, a[0].local, list(a[0].path) + [0]))))),
@@ -215,9 +298,32 @@ def r1cs_models(store):
         (r'^tracing(_core)?::', lambda I, fr, fn, a: models.Opaque('tracing')), (r'^<tracing(_core)?::', lambda I, fr, fn, a: models.Opaque('tracing')),
         (r'^core::mem::forget::', lambda I, fr, fn, a: UNIT),
     ]
+    def desc(I, v, depth=0):
+        if isinstance(v, (Ref, SliceRef)):
+            try: v = I.deref(v)
+            except Exception: return '_'
+        if isinstance(v, FqVar):
+            if not v.const: return 'Fv'
+            return f'Fc:{v.fe.const_value()}' if v.fe.is_const() else 'Fc:<value-dependent ' + v.fe.key()[:40] + '>'
+        if isinstance(v, FE): return f'fc:{v.const_value()}' if v.is_const() else 'fc:<value-dependent ' + v.key()[:40] + '>'
+        if isinstance(v, BoolVar): return f'Bc:{int(v.b)}' if v.const else 'Bv'
+        if isinstance(v, bool): return f'bc:{int(v)}'
+        if isinstance(v, Enum) and 'AllocationMode' in v.name: return 'mode:' + v.variant.split('::')[-1]
+        if isinstance(v, Agg) and v.name == 'AffineVar' and depth < 3: return 'A(' + ','.join(desc(I, f, depth + 1) for f in v.fields[:2]) + ')'
+        return '_'
+    def traced(pat, model):
+        def f(I, fr, fn, a):
+            tr = st(I).trace
+            short = re.sub(r'<[^<>]*>', '', re.sub(r'<[^<>]*>', '', re.sub(r'<[^<>]*>', '', fn)))
+            tr.append((short.split(' as ')[-1][-60:], tuple(desc(I, x) for x in a)))
+            return model(I, fr, fn, a)
+        return f
+    # every call into ark-r1cs-std is one event of the shape trace (function, operand kinds, values of constants): the sequence of
+    # events determines the variables and constraints arkworks emits, provided its own gadgets are value-oblivious (trusted)
+    fns = [((pat, traced(pat, mdl)) if ('ark_r1cs_std' in pat and 'R1CSVar' not in pat) else (pat, mdl)) for pat, mdl in fns]
     from . import curve
     M = curve.curve_models('ark', extra=fns)
-    M['consts'] = [(r'^ark_r1cs_std::prelude::Boolean::<.*>::TRUE$', lambda I, fr, path: BoolVar(True)), (r'^ark_r1cs_std::prelude::Boolean::<.*>::FALSE$', lambda I, fr, path: BoolVar(False))] + M.get('consts', [])
+    M['consts'] = [(r'^ark_r1cs_std::prelude::Boolean::<.*>::TRUE$', lambda I, fr, path: BoolVar(True, True)), (r'^ark_r1cs_std::prelude::Boolean::<.*>::FALSE$', lambda I, fr, path: BoolVar(False, True))] + M.get('consts', [])
     return M
 
 # ---------------------------------------------------------------------------------------------- deciding a constraint store
